@@ -304,14 +304,23 @@ def run(ctx):
                 "and X25519/X448; JSON serialization with 1-3 recipients, with and without AAD, per-member mutations, non-recipient key; "
                 "interoperability with the independent implementation in both directions; distinct_nontrivial = distinct (alg, enc, zip, plaintext)")
     encs = list(E.ENCS)
+    E.keys()                     # generated before any worker process is forked: every worker holds the same key material
     i = 0
+    jobs = []
     for alg in E.ALGS:
         for enc in encs:
             if alg == "dir" or not quick or (E.ALGS.index(alg) + encs.index(enc)) % 3 == 0:
                 for zip_name in ((None, "DEF") if not quick else (None if i % 2 else "DEF",)):
                     payload = PAYLOADS[i % len(PAYLOADS)]
-                    check_compact(ctx, alg, enc, zip_name, payload, 60 if quick else (None if len(payload) < 100 else 600))
+                    jobs.append((alg, enc, zip_name, payload, 60 if quick else (None if len(payload) < 100 else 600)))
                     i += 1
+    if quick:
+        for job in jobs:
+            check_compact(ctx, *job)
+    else:
+        # the thorough tier flips every bit of short serializations: sharded over worker processes, findings merged
+        import core
+        core.run_parallel(ctx, "props.c03", "_job_compact", jobs)
     # long plaintexts, compressed and not: sizes around powers of two and beyond a quarter of a megabyte
     big = [(b"0123456789abcdef" * 16400)[:262145], bytes(ctx.rng.getrandbits(8) for _ in range(70001)), b"z" * 1048577]
     for n, payload in enumerate(big if not quick else big[:2]):
@@ -341,6 +350,11 @@ def run(ctx):
         for aad in (True, "empty", False):
             check_json(ctx, alg, enc, 1, aad, b"json jwe, no protected header", shape="unprotected")
         check_json(ctx, alg, enc, 2 if alg not in ("dir", "ECDH-ES") else 1, "empty", b"json jwe, empty aad")
+
+
+def _job_compact(wctx, *args):
+    wctx.oracles = oracles()
+    check_compact(wctx, *args)
 
 
 def run_case(ctx, case):
